@@ -913,7 +913,28 @@ export class RegexRuntype extends BaseRuntype {
     return this.description;
   }
   schema(_ctx: SchemaContext): JSONSchema7 {
-    return annotateSchema(this.metadata, { type: "string", pattern: this.description });
+    return annotateSchema(this.metadata, { type: "string", pattern: this.schemaPattern() });
+  }
+  // JSON Schema patterns are ECMA-262 sources without flags: the dot-all "." is spelled out
+  private schemaPattern(): string {
+    const src = this.regex.source;
+    let out = "";
+    let inClass = false;
+    for (let i = 0; i < src.length; i++) {
+      const c = src[i];
+      if (c === "\\") {
+        out += c + (src[i + 1] ?? "");
+        i++;
+        continue;
+      }
+      if (c === "[") {
+        inClass = true;
+      } else if (c === "]") {
+        inClass = false;
+      }
+      out += c === "." && !inClass && this.regex.dotAll ? "[\\s\\S]" : c;
+    }
+    return out;
   }
   validate(_ctx: ValidateContext, input: unknown): boolean {
     if (typeof input === "string") {
